@@ -289,6 +289,20 @@ def gen_merge_histories(rnd, count):
             yield Case(content, dict(kw), 'merge-history')
 
 
+def gen_encoding_histories(rnd):
+    """call histories around the text -> bytes policy: the same text with an explicit encoding (several spellings), then without,
+    then with a requested mode — every call must be judged on its own (nothing may be remembered between calls)"""
+    for t in ['漢字', '点茗', '茗荷', 'ｱｲｳ', 'テスト', 'äöü', 'Märchen', 'abc', 'ABC 123', '書読', '€uro', 'Ωmega', '123']:
+        encs = ['utf-8', 'shift_jis', 'iso-8859-1', 'utf8', 'UTF-8', 'latin1', 'cp932', 'utf-16-be']
+        rnd.shuffle(encs)
+        for enc in encs[:4]:
+            yield Case(t, dict(encoding=enc), 'encoding-history')
+            yield Case(t, {}, 'encoding-history')
+            yield Case(t, dict(mode=rnd.choice(['kanji', 'byte'])), 'encoding-history')
+            yield Case(t.encode(enc, 'replace'), {}, 'encoding-history')
+            yield Case(t, dict(eci=True, micro=False), 'encoding-history')
+
+
 def gen_eci_boundaries(rnd, versions):
     """byte-mode contents with eci=True in Latin-1 and in other encodings (12 bit ECI header), in this order
     and in reverse, at both sides of the capacity boundaries"""
@@ -305,6 +319,19 @@ def gen_eci_boundaries(rnd, versions):
                         kw['encoding'] = enc
                     text = ''.join(rnd.choice('abcdefghijklmnopqrstuvwxyz') for _ in range(n))
                     seq.append(Case(text, kw, 'eci-boundary'))
+            # adjacent byte parts of one non-default encoding are merged into ONE segment with ONE ECI header: exact fit / one more
+            for enc in ('utf-8', 'shift_jis'):
+                nmax = max_chars(v, e, 4, 12)
+                for n in (nmax, nmax + 1):
+                    if n < 3:
+                        continue
+                    k = rnd.randint(2, 3)
+                    cuts = sorted(rnd.sample(range(1, n), k - 1))
+                    text = ''.join(rnd.choice('abcdefghijklmnopqrstuvwxyz') for _ in range(n))
+                    parts = [text[a:b] for a, b in zip([0] + cuts, cuts + [n])]
+                    kw = dict(error=LEVEL_NAME[e], mask=rnd.randrange(4), micro=False, eci=True, mode='byte', encoding=enc, boost_error=False)
+                    seq.append(Case(parts, kw, 'eci-merged-boundary'))
+                    seq.append(Case(parts, dict(kw, version=vname(v)), 'eci-merged-boundary-requested'))
             if rnd.random() < 0.5:
                 seq.reverse()
             yield from seq
@@ -508,54 +535,196 @@ def _threaded_child(args_list):
     return out
 
 
-def concurrency_pass(cases, st, res, fields):
-    """the same calls again, concurrently and with the returned symbols held: every result must equal the result of the
-    sequential pass (and is therefore judged already); a difference is judged and reported as a violation of `fields`"""
+def _make_call(content, kw):
+    return segno.make(content, **kw)
+
+
+def _matrix_snap(q):
+    return tuple(bytes(r) for r in q.matrix)
+
+
+def _scheduled_child(args_list, seed, nthreads=4, p=0.2, call=_make_call, snap=_matrix_snap):
+    """runs in a forked child: a DETERMINISTIC scheduler instead of the operating system's — only one thread runs at a time, and
+    at function starts and calls (Python and C functions) made by segno's code (`sys.monitoring` events PY_START / CALL; a call
+    site inside a loop is a switch point only the first few times per group) the running thread hands over, with probability p,
+    to a thread chosen by a PRNG seeded with `seed`.  The calls are processed in groups of `nthreads` consecutive calls (one per
+    thread, all threads of a group joined before the next group starts); all symbols are held until the end.  The same seed
+    reproduces the same interleaving."""
+    import sys, threading, random as _random
+    rnd = _random.Random(seed)
+    segdir = os.path.dirname(os.path.abspath(segno.__file__))
+    results = [None] * len(args_list)
+    held = [None] * len(args_list)
+    mon = sys.monitoring
+    tid = mon.PROFILER_ID
+    mon.use_tool_id(tid, 'verif-sched')
+    state = dict(sems=None, alive=None, seen={}, limit=0)
+    local = threading.local()
+
+    def hand_over(k):
+        sems, alive = state['sems'], state['alive']
+        cands = [i for i in range(len(alive)) if alive[i]]
+        nxt = rnd.choice(cands)
+        if nxt != k:
+            sems[nxt].release()
+            sems[k].acquire()
+
+    def on_event(code, offset, *rest):
+        if not code.co_filename.startswith(segdir):
+            return mon.DISABLE
+        k = getattr(local, 'k', None)
+        if k is None:
+            return None
+        key = (code, offset)
+        c = state['seen'].get(key, 0) + 1
+        state['seen'][key] = c
+        if rnd.random() < p:
+            hand_over(k)
+        if c >= state['limit']:
+            return mon.DISABLE
+        return None
+    mon.register_callback(tid, mon.events.PY_START, on_event)
+    mon.register_callback(tid, mon.events.CALL, on_event)
+    mon.set_events(tid, mon.events.PY_START | mon.events.CALL)
+    try:
+        for g0 in range(0, len(args_list), nthreads):
+            idx = list(range(g0, min(g0 + nthreads, len(args_list))))
+            n = len(idx)
+            sems = [threading.Semaphore(0) for _ in range(n)]
+            alive = [True] * n
+            state.update(sems=sems, alive=alive, seen={}, limit=3 * n)
+            mon.restart_events()
+
+            def work(k):
+                sems[k].acquire()
+                i = idx[k]
+                content, kw = args_list[i]
+                local.k = k
+                try:
+                    q = call(content, kw)
+                    local.k = None
+                    held[i] = q
+                    results[i] = ('ok', snap(q))
+                except Exception as ex:  # noqa
+                    local.k = None
+                    results[i] = ('exc', exc_name(ex), str(ex)[:200])
+                alive[k] = False
+                cands = [j for j in range(n) if alive[j]]
+                if cands:
+                    sems[rnd.choice(cands)].release()
+            ths = [threading.Thread(target=work, args=(k,)) for k in range(n)]
+            for t in ths:
+                t.start()
+            sems[rnd.randrange(n)].release()
+            for t in ths:
+                t.join()
+    finally:
+        mon.set_events(tid, 0)
+        mon.free_tool_id(tid)
+    out = []
+    for i, r in enumerate(results):
+        if r is None:
+            out.append(('exc', 'NoResult', ''))
+        elif r[0] == 'ok':
+            out.append(('ok', r[1], snap(held[i])))
+        else:
+            out.append(r)
+    return out
+
+
+def same_size_groups(rnd):
+    """groups of 8 calls per symbol size: automatic mask for a selection of versions, a requested mask (cheap: no scoring) for
+    EVERY version — the first use of a size then happens in 8 threads at once, and symbols of one size are created one after
+    the other and held"""
+    groups = []
+    for v, auto in [(v, True) for v in (-3, -2, -1, 0, 1, 2, 3, 4, 6, 7, 9, 10, 14, 21)] + [(v, False) for v in range(-3, 41)]:
+        e = rnd.choice(levels_of(v))
+        for _ in range(8):
+            kw = dict(version=vname(v))
+            if not auto:
+                kw['mask'] = rnd.randrange(4)
+            if e is not None:
+                kw['error'] = LEVEL_NAME[e]
+            mode = rnd.choice(modes_of(v))
+            c = content_for(rnd, mode, rnd.randint(1, max(1, min(24, max_chars(v, e, mode)))))
+            if mode == 8 and isinstance(c, bytes) and rnd.random() < 0.5:
+                try:
+                    c = c.decode('shift_jis')              # the text path (encoding detection) as well
+                except UnicodeDecodeError:
+                    pass
+            groups.append(Case(c, kw, 'same-size-group' if auto else 'same-size-group-mask'))
+    return groups
+
+
+def scheduled_run(groups, seed):
+    """reference (sequential, fresh process) and deterministic-scheduler run (fresh process) of the same calls"""
     import multiprocessing
+    ctx = multiprocessing.get_context('fork')
+    args = [(c.content, c.kw) for c in groups]
+    with ctx.Pool(1) as pool:
+        refs = pool.apply(_sequential_child, (args,))
+    for c, r in zip(groups, refs):
+        _apply_impl(c, r)
+    with ctx.Pool(1) as pool:
+        outs = pool.apply(_scheduled_child, (args, seed, 8, 0.1))
+    return outs
+
+
+def _judge_differences(pairs, res, fields, how):
+    """pairs: (case, tag, matrix, replay) of symbols that differ from the sequential result"""
+    lines = [f'sym id={i} m={matrix_str(m)}' for i, (_, _, m, _) in enumerate(pairs)]
+    for (c, tag, _, rp), o in zip(pairs, run_lines_parallel(JUDGE, lines)):
+        kv = parse_kv(o)
+        verdicts = {f: kv.get(f, 'missing') for f in ('c01', 'c02', 'c03', 'c13') if kv.get(f, '-') not in ('ok', '-')}
+        res.violations.append(dict(property_field=fields[0], verdict=f'symbol-differs-from-sequential-result-{tag}:{verdicts or "another-valid-symbol"}',
+                                   call=c.call() + f'  [{how}, symbols held]', replay=rp, judge={k: kv[k] for k in kv if k not in ('cw', 'bytes')},
+                                   known_id=None))
+
+
+def compare_concurrent(sample, outs, res, fields, how, replay_of):
+    pairs = []
+    for i, (c, o) in enumerate(zip(sample, outs)):
+        if c.qr is None:
+            if o[0] == 'ok':
+                res.violations.append(dict(property_field=fields[0], verdict=f'concurrent-call-returned-a-symbol-sequential-call-raised-{c.exc}',
+                                           call=c.call() + f'  [{how}]', replay=replay_of(i, c), known_id=None))
+            continue
+        ref = tuple(bytes(r) for r in c.qr.matrix)
+        if o[0] != 'ok':
+            res.violations.append(dict(property_field=fields[0], verdict=f'concurrent-call-raised-{o[1]}-sequential-call-returned-a-symbol',
+                                       call=c.call() + f'  [{how}]', replay=replay_of(i, c), known_id=None))
+            continue
+        for tag, m in (('at-return', o[1]), ('after-all-calls', o[2])):
+            if m != ref:
+                pairs.append((c, tag, m, replay_of(i, c)))
+    _judge_differences(pairs, res, fields, how)
+
+
+def concurrency_pass(cases, st, res, fields):
+    """the same calls again, concurrently and with the returned symbols held: every result must equal the result of a
+    sequential pass (and is therefore judged already); a difference is judged and reported as a violation of `fields`.
+    (1) a deterministic scheduler (seeded, replayable) over groups of 8 same-size calls; (2) the operating system's threads
+    with a tiny switch interval over a sample of the sweep's own calls."""
+    import multiprocessing
+    seed = int(os.environ.get('VERIF_SEED', '1'))
+    groups = same_size_groups(random.Random(seed * 7919 + len(cases)))
+    outs = scheduled_run(groups, seed)
+    enc_groups = [c.replay() for c in groups]
+    compare_concurrent(groups, outs, res, fields, 'deterministic scheduler, 8 threads',
+                       lambda i, c: dict(c.replay(), schedule=dict(seed=seed, index=i, calls=enc_groups)))
+    res.evaluations += len(groups)
+    res.count('concurrency-pass:scheduled-calls', len(groups))
     sample = [c for c in cases if c.qr is not None and c.kw.get('mask') is None][:120] + [c for c in cases if c.qr is not None][:120]
     if not sample:
         return
     # several symbols of the same size in a row (work areas shared between consecutive calls)
     sample = sorted(sample, key=lambda c: len(c.qr.matrix))[: 240 - 240 % 8]
-    # plus groups of 8 calls per symbol size with automatic mask (first use of a size by several threads at once; symbols of one
-    # size created one after the other and held); their sequential reference comes from a second fresh process
-    rnd = random.Random(len(cases))
-    groups = []
-    for v in [-3, -2, -1, 0, 1, 2, 3, 4, 6, 7, 9, 10, 14, 21, 27, 32, 40]:
-        e = rnd.choice(levels_of(v))
-        for _ in range(8):
-            kw = dict(version=vname(v))
-            if e is not None:
-                kw['error'] = LEVEL_NAME[e]
-            groups.append(Case(content_for(rnd, 1, rnd.randint(1, max(1, min(40, max_chars(v, e, 1))))), kw, 'same-size-group'))
-    ctx = multiprocessing.get_context('fork')
-    with ctx.Pool(1) as pool:
-        refs = pool.apply(_sequential_child, ([(c.content, c.kw) for c in groups],))
-    for c, r in zip(groups, refs):
-        _apply_impl(c, r)
-    sample = [c for c in groups if c.qr is not None] + sample
-    args = [(c.content, c.kw) for c in sample]
-    with ctx.Pool(1) as pool:
-        outs = pool.apply(_threaded_child, (args,))
-    res.evaluations += len(args)
-    lines, info = [], []
-    for c, o in zip(sample, outs):
-        ref = tuple(bytes(r) for r in c.qr.matrix)
-        if o[0] != 'ok':
-            res.violations.append(dict(property_field=fields[0], verdict=f'concurrent-call-raised-{o[1]}-sequential-call-returned-a-symbol',
-                                       call=c.call() + '  [8 threads]', replay=c.replay(), known_id=None))
-            continue
-        for tag, m in (('at-return', o[1]), ('after-all-calls', o[2])):
-            if m != ref:
-                lines.append(f'sym id={len(lines)} m={matrix_str(m)}')
-                info.append((c, tag))
-    for (c, tag), o in zip(info, run_lines_parallel(JUDGE, lines)):
-        kv = parse_kv(o)
-        verdicts = {f: kv.get(f, 'missing') for f in ('c01', 'c02', 'c03', 'c13') if kv.get(f, '-') not in ('ok', '-')}
-        res.violations.append(dict(property_field=fields[0], verdict=f'symbol-differs-from-sequential-result-{tag}:{verdicts or "another-valid-symbol"}',
-                                   call=c.call() + '  [8 threads, symbols held]', replay=c.replay(), judge={k: kv[k] for k in kv if k not in ('cw', 'bytes')},
-                                   known_id=None))
-    res.count('concurrency-pass:calls', len(args))
+    sample = [c for c in groups if c.qr is not None and c.tag == 'same-size-group'] + sample
+    with multiprocessing.get_context('fork').Pool(1) as pool:
+        outs = pool.apply(_threaded_child, ([(c.content, c.kw) for c in sample],))
+    compare_concurrent(sample, outs, res, fields, '8 threads', lambda i, c: c.replay())
+    res.evaluations += len(sample)
+    res.count('concurrency-pass:calls', len(sample))
 
 
 def sweep(cases, st, res, fields, want_c06=True, known_map=None, jobs=None, corr=True):
@@ -610,6 +779,6 @@ def sweep(cases, st, res, fields, want_c06=True, known_map=None, jobs=None, corr
                 res.violations.append(dict(property_field=fld, verdict=verdict, call=c.call(), replay=c.replay(),
                                            judge={k: c.jkv[k] for k in c.jkv if k not in ('cw', 'bytes')},
                                            model_agrees=(c.model == c.impl) if c.model else None, known_id=kid))
-        if any(f in ('c01', 'c02', 'c03') for f in fields):
+        if any(f in ('c01', 'c02', 'c03', 'c04', 'c05', 'c06', 'c07', 'c13') for f in fields):
             concurrency_pass(cases, st, res, fields)
     return cases
